@@ -158,18 +158,39 @@ var kinds = []string{"i", "a", "l", "h", "s"}
 func key(kind string, n int) string { return fmt.Sprintf("%s:t:%s%d", nsName, kind, n) }
 
 type gen struct {
-	r   *hx.Rng
-	seq int
-	tag string
+	r       *hx.Rng
+	seq     int
+	tag     string
+	pending [][]string
 }
 
 func (g *gen) next() []string {
+	if len(g.pending) > 0 {
+		c := g.pending[0]
+		g.pending = g.pending[1:]
+		return c
+	}
 	g.seq++
 	tok := fmt.Sprintf("%s%d.", g.tag, g.seq)
 	n := g.r.Intn(nKeys)
 	// a token some earlier write of this generator used (it may or may not be in the data any more)
 	old := fmt.Sprintf("%s%d.", g.tag, 1+g.r.Intn(g.seq))
-	switch g.r.Intn(12) {
+	switch g.r.Intn(13) {
+	case 12:
+		// a write the leader proposes and the state machine refuses when it applies it (SETEX with an expire time
+		// of 0, or one that is not a number): it must not take any other write with it, live or in a replay
+		// (it comes behind two writes on other keys that the state machine may collect in one write batch with it when
+		// the entries are applied together, as a replay after a restart does)
+		bad := "0"
+		if g.r.Intn(3) == 0 {
+			bad = "notanumber"
+		}
+		second := []string{"set", key("a", (n+2)%nKeys), tok + "b"}
+		if g.r.Intn(2) == 0 {
+			second = []string{"del", key("a", (n+2)%nKeys)}
+		}
+		g.pending = append(g.pending, second, []string{"setex", key("a", (n+3)%nKeys), bad, tok})
+		return []string{"set", key("a", (n+1)%nKeys), tok + "a"}
 	case 8:
 		return []string{"del", key("a", n)}
 	case 9:
@@ -514,6 +535,7 @@ type dirJob struct {
 	opsMax   int
 	specs    []string // forced specs (replay), else generated
 	thorough bool
+	snapCount int // raft snapshot every N applied entries (0: 20)
 }
 
 // spec: "P:<name>:<k>:<stall_ms>"  crash point armed once the restart is verified (k-th hit from then on)
@@ -688,6 +710,9 @@ func runDir(self string, job dirJob, pa *portAlloc, emit func(RunRec)) {
 	}
 	defer os.RemoveAll(dir)
 	cfg := childCfg{Dir: dir, Engine: job.engine, SnapCount: 20, SegSize: 8192, Keep: 2, OptFsync: job.optFsync}
+	if job.snapCount > 0 {
+		cfg.SnapCount = job.snapCount
+	}
 	g := &gen{r: r, tag: fmt.Sprintf("d%d", job.id)}
 	run := 0
 	envFailures := 0
@@ -1073,6 +1098,7 @@ func runParent(pc parentCfg) {
 				OptFsync bool     `json:"optfsync"`
 				OpsMax   int      `json:"ops_max"`
 				Specs    []string `json:"specs"`
+				SnapCnt  int      `json:"snap_count"`
 			} `json:"jobs"`
 		}
 		if err := json.Unmarshal(b, &rp); err != nil {
@@ -1080,7 +1106,7 @@ func runParent(pc parentCfg) {
 		}
 		for i, j := range rp.Jobs {
 			jobs = append(jobs, dirJob{id: i, seed: j.Seed, engine: j.Engine, optFsync: j.OptFsync, cycles: len(j.Specs),
-				opsMax: j.OpsMax, specs: j.Specs})
+				opsMax: j.OpsMax, specs: j.Specs, snapCount: j.SnapCnt})
 		}
 	} else {
 		master := hx.NewRng(pc.Seed)
